@@ -174,6 +174,8 @@ def run(report, tier):
     g = histrun.history_graph(report)
     hs = [h for h in g.triples() if h[-1]['op'] == 'Solve' and sum(1 for o in h if o['op'] == 'Solve') >= 2]
     sample, report.extra['strata (fill, edit, observation) covered'] = histgraph.stratified(hs, 300 if tier == 'quick' else 4000, common.rng('C06h'), extra=0.0)
+    seen = set(map(id, sample))
+    sample += [h for h in histgraph.replacement_histories(hs) if id(h) not in seen]      # the whole objective-replacement matrix
     batch = []
     for part in histrun.parallel(c13.replay_chunk, sample):
         batch += part.pop('batch')
